@@ -360,7 +360,20 @@ fn reaches_element(bytes: &[u8]) -> bool {
 pub const DEPTH_TEMPLATES: usize = 6;
 pub const MAX_DEPTH: usize = 200;
 
+/// occurrence counts around the limits of 8- and 16-bit counters: `<r>` with n children `<a/>`
+pub const COUNTER_CASES: &[usize] = &[255, 256, 257, 65_535, 65_536, 65_537, 70_000];
+
 pub fn depth_case(idx: u64) -> Vec<u8> {
+    if idx as usize >= MAX_DEPTH * DEPTH_TEMPLATES {
+        let n = COUNTER_CASES[(idx as usize - MAX_DEPTH * DEPTH_TEMPLATES) % COUNTER_CASES.len()];
+        let mut s = String::with_capacity(n * 4 + 8);
+        s.push_str("<r>");
+        for _ in 0..n {
+            s.push_str("<a/>");
+        }
+        s.push_str("</r>");
+        return s.into_bytes();
+    }
     let depth = (idx as usize / DEPTH_TEMPLATES) + 1;
     let t = idx as usize % DEPTH_TEMPLATES;
     let mut s = String::new();
@@ -430,7 +443,7 @@ fn depth_exercise(bytes: &[u8]) -> Vec<String> {
 
 pub fn worker_len(part: &str, tier: Tier) -> u64 {
     match part {
-        "depth" | "depth-unoptimised" => (MAX_DEPTH * DEPTH_TEMPLATES) as u64,
+        "depth" | "depth-unoptimised" => (MAX_DEPTH * DEPTH_TEMPLATES + COUNTER_CASES.len()) as u64,
         _ => space(part, tier).map(|s| s.len()).unwrap_or(0),
     }
 }
@@ -705,8 +718,8 @@ pub fn run(ctx: &Ctx) {
         total_inputs += inputs_done;
         total_nontrivial += part_nontrivial;
         let describe = match part {
-            "depth-unoptimised" => format!("the same nesting depths 1..={} x {} templates with the library compiled at opt-level 0 (largest stack frames), on a 2 MiB stack", MAX_DEPTH, DEPTH_TEMPLATES),
-            "depth" => format!("nesting depths 1..={} x {} templates (one name; two alternating names; with attributes; unclosed; nest then repeated sibling; text at every level), each parsed, extended with itself and rendered on a 2 MiB stack", MAX_DEPTH, DEPTH_TEMPLATES),
+            "depth-unoptimised" => format!("the same nesting depths 1..={} x {} templates and occurrence counts {:?} of one child (limits of 8- and 16-bit counters; overflow checks are on in this build) with the library compiled at opt-level 0 (largest stack frames), on a 2 MiB stack", MAX_DEPTH, DEPTH_TEMPLATES, COUNTER_CASES),
+            "depth" => format!("nesting depths 1..={} x {} templates (one name; two alternating names; with attributes; unclosed; nest then repeated sibling; text at every level), each parsed, extended with itself and rendered on a 2 MiB stack; plus `<r>` with n children `<a/>` for n in {:?}", MAX_DEPTH, DEPTH_TEMPLATES, COUNTER_CASES),
             "reader" | "reader-docs" => format!("{} under every sequence of BufRead answers (all / 1 / 2 / 3 / 7 bytes, Interrupted, hard I/O error) with <= 2 deviations: {} executions", space(part, tier).map(|s| s.describe()).unwrap_or_default(), part_exec),
             _ => space(part, tier).map(|s| s.describe()).unwrap_or_default(),
         };
